@@ -62,7 +62,11 @@ def case(draw):
         keyed.append({'kind': draw(st.sampled_from(['ic-id', 'ic-fullcode', 'exo-object', 'exo-fullcode'])), 'sector': r,
                       'value': econ.dec2(draw(st.integers(-5000, 5000)))})
     local_t = draw(st.sampled_from(roles)) if draw(st.sampled_from([True, False, False])) else None
-    return {'spec': spec, 'ops': ops, 'keyed': keyed, 'throwaway': draw(st.sampled_from([0, 1, 3, 0])), 'local_t': local_t}
+    shared = None
+    if draw(st.sampled_from([True, False, False])):
+        shared = [draw(st.sampled_from(roles)), draw(st.sampled_from(roles)),
+                  draw(st.sampled_from(['0.5*LAG_F + 1.0', 'F - LAG_F', '2*INC', 'LAG_F']))]
+    return {'spec': spec, 'ops': ops, 'keyed': keyed, 'throwaway': draw(st.sampled_from([0, 1, 3, 0])), 'local_t': local_t, 'shared': shared}
 
 
 def run(case_):
@@ -75,6 +79,7 @@ def run(case_):
         Sector(c0, 'A')
         Sector(c0, 'B').GetVariableName('F')
     term_requests = []
+    shared_done = []
     requests = []     # (emb variable full owner role, emb local name or global name, requested (role, local var))
     state = {'codes': False}
     n_countries_final = sum(len(z['countries']) for z in spec['zones']) + (1 if spec['external'] != 'none' else 0)
@@ -127,6 +132,15 @@ def run(case_):
             sec = S[tuple(case_['local_t'])]
             sec.AddVariable('t', 'a local variable that happens to be called t', '0.25')
             sec.AddVariable('USES_t', 'uses the local t', '2.0*t + 1.0')
+        # one Equation object (written with local names) registered by reference in two sectors
+        if case_.get('shared') is not None:
+            from sfc_models.equation import Equation
+            ra, rb, text = case_['shared']
+            if tuple(ra) != tuple(rb) and S[tuple(ra)].HasF and S[tuple(rb)].HasF:
+                eq = Equation('SHARED', 'one equation object, two sectors', text)
+                S[tuple(ra)].AddVariableFromEquation(eq)
+                S[tuple(rb)].AddVariableFromEquation(eq)
+                shared_done.append((tuple(ra), tuple(rb), text))
         for j, kq in enumerate(case_['keyed']):
             sec = S[tuple(kq['sector'])]
             if kq['kind'].startswith('ic'):
@@ -233,6 +247,22 @@ def run(case_):
         if a != b:
             raise Violation('C05/meaning-changed', '%s: local form %r evaluates to %r, emitted %r to %r' %
                             (full, local_rhs, a, system.eqs[full], b))
+    # the shared Equation object must mean, in each sector, what its local text says with that sector's names
+    for ra, rb, text in shared_done:
+        for role in (ra, rb):
+            sec = built.sectors[role]
+            lhs = sec.FullCode + '__SHARED'
+            if lhs not in system.eqs:
+                raise Violation('C05/embedded-equation-lost', 'equation %s is missing from the final text' % lhs)
+            env_local = dict(vals)
+            for lv in sec.EquationBlock.GetEquationList():
+                env_local[lv] = vals[sec.FullCode + '__' + lv]
+            want = expr.float_eval(text, env_local)
+            got = expr.float_eval(system.eqs[lhs], vals)
+            if want != got:
+                raise Violation('C05/meaning-changed', 'Equation object %r shared by %s and %s: emitted %s = %r (value %r, the local '
+                                'text gives %r)' % (text, built.sectors[ra].FullCode, built.sectors[rb].FullCode, lhs,
+                                                    system.eqs[lhs], got, want))
     # term-built equations: value of the emitted equation == signed sum of the terms written with canonical names
     for owner, emb, src_role, var, var2, terms, phase in term_requests:
         if emb is None:
